@@ -32,7 +32,7 @@ func NewRegexpMatcher(include, exclude []*regexp.Regexp) (*RegexpMatcher, error)
 			if i > 0 {
 				regex.WriteString("|")
 			}
-			regex.WriteString("(?:" + rules[i].String() + ")")
+			regex.WriteString("(?:" + closeQuote(rules[i].String()) + ")")
 		}
 		if s := regex.String(); s != "" {
 			return regexp.MustCompile(s)
@@ -44,6 +44,26 @@ func NewRegexpMatcher(include, exclude []*regexp.Regexp) (*RegexpMatcher, error)
 		include: build(include),
 		exclude: build(exclude),
 	}, nil
+}
+
+// closeQuote terminates a \Q...\E quotation that the expression leaves open at its end,
+// so that the quotation does not extend over what is appended to the expression.
+func closeQuote(s string) string {
+	for i := 0; i+1 < len(s); {
+		switch {
+		case s[i] != '\\':
+			i++
+		case s[i+1] != 'Q':
+			i += 2
+		default:
+			j := strings.Index(s[i+2:], `\E`)
+			if j < 0 {
+				return s + `\E`
+			}
+			i += 2 + j + 2
+		}
+	}
+	return s
 }
 
 // Inverse returns a new RegexpMatcher that inverts the match result.
